@@ -15,6 +15,10 @@ STREAM_TEXT = ("TLC model-checks the mechanism specification against the ideal o
                "use; the real implementation is then driven along exhaustively enumerated schedules / histories and every "
                "recorded step is accepted or rejected by a TLA+ trace acceptor that reuses the specification's actions. "
                "Exhaustive within the stated bounds (stream length, history length), sampled beyond them.")
+GEN_TEXT = ("A TLA+ module states the semantics (constraint denotation, time grammar and canonical form, well-typedness, open-type "
+            "resolution); TLC either generates every obligation of a bounded generator machine, which the harness replays into "
+            "pyasn1, or accepts/rejects every recorded library call through a trace acceptor built on the same operators. "
+            "Exhaustive within the stated bounds.")
 CLAIMED = {
     'C01': ('6 C01', 'spec-generated (type,value) cases x 12 encoder modes, round trip judged by the reference model'),
     'C02': ('6 C02', 'DER/CER round trips through every wider decoder + agreement, judged by the reference model'),
@@ -27,6 +31,14 @@ CLAIMED = {
     'C16': ('6 C16', 'schemaless decoding of self-describing encodings: leaves and DER re-encoding'),
     'C05': ('6 C05', 'StreamMech refines StreamIdeal (TLC); every arrival partition x close timing x idle polls x stream kinds driven through the real StreamingDecoder, each poll judged by the ideal layer (Trace_Stream)'),
     'C08': ('6 C08', 'all short strings over a structural alphabet + single mutations of valid encodings; status class and step bound judged by Trace_Clean'),
+    'C04': ('6 C04', 'construction histories (assignment orders, explicit/implicit DEFAULTs, decode of every reference form, clones, read-only uses) of one abstract value: DER/CER equal across histories and equal to the reference DER; decode/re-encode fixpoint'),
+    'C10': ('6 C10', 'every input a guided decoder accepts (neighbour-type encodings and mutations) judged by the independent well-typedness evaluator spec/WellTyped.tla, then re-encode/re-decode fixpoint'),
+    'C12': ('6 C12', 'Session.tla (interleavings of suspended decoders, one-shot calls, debug switch) model-checked; recorded interleavings on one shared schema object, snapshots around every call, outcomes vs isolated runs, debug on, threads (sampled), judged by Trace_Session'),
+    'C14': ('6 C14', 'generator machine spec/Constraint.tla: every (expression tree, candidate), derivation chain and value-producing operation state replayed into pyasn1 and compared with the set-theoretic verdict'),
+    'C17': ('6 C17', 'native round trip judged by Norm equality; Python-value+schema encodings compared octet for octet with value-object encodings'),
+    'C18': ('6 C18', 'open-type matrix (container x field x tagging x governor x inner type x maps x codec x resolution) judged by JudgeOpen against the reference encoding of the inner value'),
+    'C19': ('6 C19', 'object machines of spec/Container.tla (list / dict / at-most-one) as trace acceptor over all operation sequences of length 3 + random longer ones on real SEQUENCE OF, SEQUENCE, CHOICE objects'),
+    'C20': ('6 C20', 'X.680 time grammar and canonical-form predicate of spec/Time.tla judge datetime round trips over the grid and CER/DER outputs for every grammar string in the bounds'),
     'C11': ('6 C11', 'CacheWrap model (invariant + refinement of a seekable stream); exhaustive operation histories on the real CachingStreamWrapper accepted by Trace_Wrap; 10 substrate kinds compared by Trace_Kinds'),
 }
 checks = []
@@ -38,10 +50,9 @@ for p in props:
             'property_id': i, 'quick_cmd': './check %s --tier quick' % i, 'thorough_cmd': './check %s --tier thorough' % i,
             'evidence_file': 'evidence/%s.json' % i, 'replay_cmd_template': './check %s --replay {path}' % i,
             'engine': 'tlc+trace', 'technique': 'TLA+ model (TLC) + trace validation of pyasn1 executions: ' + tech,
-            'level_claimed': {'category': 'model_checking', 'text': STREAM_TEXT if i in ('C05', 'C08', 'C11') else CODEC_TEXT, 'design_ref': 'DESIGN.md section ' + ref},
+            'level_claimed': {'category': 'model_checking', 'text': STREAM_TEXT if i in ('C05', 'C08', 'C11', 'C12', 'C19') else GEN_TEXT if i in ('C14', 'C20', 'C18', 'C10') else CODEC_TEXT, 'design_ref': 'DESIGN.md section ' + ref},
             'level_note': CODEC_NOTE})
-na = [{'property_id': p['id'], 'reason': 'check not built yet (work in progress; see DESIGN.md section 6)'}
-      for p in props if p['id'] not in CLAIMED]
+na = [{'property_id': p['id'], 'reason': 'check not built yet'} for p in props if p['id'] not in CLAIMED]
 m = {'version': 1, 'setup_cmd': './setup.sh',
      'hooks': {'guard': 'PYASN1_VERIF_TRACE', 'enable': 'no source hooks are needed so far: the stream doubles of the harness observe every read/seek/tell/mark; checks import pyasn1 from /repo (PYTHONPATH)',
                'baseline_off_cmd': 'cd /repo && /venv/bin/python -m pytest -q -p no:cacheprovider', 'source_commits': [], 'add_only': True},
